@@ -76,6 +76,59 @@ let rec show_val (v : val0) : string =
     if nb = N0 then Printf.sprintf "&%szst+0x%s:%s" kc (hex_of_n cnt) (show_val x)
     else Printf.sprintf "&%s%s+%sx%s:%s" kc (hex_of_n off) (hex_of_n nb) (hex_of_n cnt) (show_val x)
 
+(* canonical text of an ε-copy type (vlib/tygen.py dty_sexp prints the same) *)
+let iprim_name = function
+  | U8 -> "u8" | U16 -> "u16" | U32 -> "u32" | U64 -> "u64" | U128 -> "u128" | USize -> "usize"
+  | I8 -> "i8" | I16 -> "i16" | I32 -> "i32" | I64 -> "i64" | I128 -> "i128" | ISize -> "isize"
+let rkind_name = function RRange -> "range" | RFrom -> "from" | RIncl -> "incl" | RTo -> "to" | RToIncl -> "toincl"
+let hexname l = if l = [] then "-" else hex_of_bytes l
+let rec show_own (t : ty) : string =
+  match t with
+  | TPrim (PInt i) -> iprim_name i
+  | TPrim (PNZ i) -> "nz" ^ iprim_name i
+  | TPrim PF32 -> "f32" | TPrim PF64 -> "f64" | TPrim PBool -> "bool" | TPrim PChar -> "char"
+  | TUnit -> "unit" | TString -> "string" | TBoxStr -> "boxstr" | TRangeFull -> "rfull"
+  | TPhantom t -> "(ph " ^ show_own t ^ ")"
+  | TVec t -> "(vec " ^ show_own t ^ ")"
+  | TBoxSlice t -> "(bslice " ^ show_own t ^ ")"
+  | TSliceRef t -> "(sref " ^ show_own t ^ ")"
+  | TSerIter t -> "(siter " ^ show_own t ^ ")"
+  | TArray (n, t) -> "(arr " ^ hex_of_n n ^ " " ^ show_own t ^ ")"
+  | TTuple (n, t) -> "(tup " ^ hex_of_n n ^ " " ^ show_own t ^ ")"
+  | TOption t -> "(opt " ^ show_own t ^ ")"
+  | TBound t -> "(bound " ^ show_own t ^ ")"
+  | TCF (b, c) -> "(cf " ^ show_own b ^ " " ^ show_own c ^ ")"
+  | TRange (k, t) -> "(range " ^ rkind_name k ^ " " ^ show_own t ^ ")"
+  | TStruct (i, fs) -> "(struct " ^ hexname i.a_name ^ show_own_fields fs ^ ")"
+  | TEnum (i, vs) -> "(enum " ^ hexname i.a_name ^ show_own_variants vs ^ ")"
+and show_own_fields = function
+  | FNil -> ""
+  | FCons (_, _, t, r) -> " " ^ show_own t ^ show_own_fields r
+and show_own_variants = function
+  | VNil -> ""
+  | VCons (_, _, fs, r) -> " (v" ^ show_own_fields fs ^ ")" ^ show_own_variants r
+let rec show_dty (d : dty) : string =
+  match d with
+  | DOwn t -> show_own t
+  | DRef t -> "(ref " ^ show_own t ^ ")"
+  | DSliceOf t -> "(slice " ^ show_own t ^ ")"
+  | DStr -> "str"
+  | DVec d -> "(vec " ^ show_dty d ^ ")"
+  | DBox d -> "(bslice " ^ show_dty d ^ ")"
+  | DArr (n, d) -> "(arr " ^ hex_of_n n ^ " " ^ show_dty d ^ ")"
+  | DOpt d -> "(opt " ^ show_dty d ^ ")"
+  | DBnd d -> "(bound " ^ show_dty d ^ ")"
+  | DCtl (b, c) -> "(cf " ^ show_dty b ^ " " ^ show_dty c ^ ")"
+  | DRng (k, d) -> "(range " ^ rkind_name k ^ " " ^ show_dty d ^ ")"
+  | DStruct (i, fs) -> "(struct " ^ hexname i.a_name ^ show_dfields fs ^ ")"
+  | DEnum (i, vs) -> "(enum " ^ hexname i.a_name ^ show_dvariants vs ^ ")"
+and show_dfields = function
+  | DFNil -> ""
+  | DFCons (d, r) -> " " ^ show_dty d ^ show_dfields r
+and show_dvariants = function
+  | DVNil -> ""
+  | DVCons (fs, r) -> " (v" ^ show_dfields fs ^ ")" ^ show_dvariants r
+
 let show_err = function
   | ReadError -> "ReadError" | AlignmentError -> "AlignmentError"
   | InvalidTag x -> "InvalidTag:" ^ hex_of_n x
@@ -166,6 +219,18 @@ let run_case cid t h v ops =
       | ["eps"; r] ->
         if out = SDone then
           Printf.printf "%s eps:%s %s\n" cid r (show_res show_val (deser_eps_top (n_of_hex r) h dt bytes))
+      | ["dty"] ->
+        Printf.printf "%s dty %s\n" cid (show_dty (dty_of dt))
+      | ["alloc"; r] ->
+        if out = SDone then
+          (match deser_eps_top (n_of_hex r) h dt bytes with
+           | Ok ((e, _), _) ->
+             let skel_same = (alloc_eps dt (skel e) = alloc_eps dt e) in
+             Printf.printf "%s alloc:%s counts=%s refs_in_blocks=%s skel=%s\n" cid r
+               (String.concat "," (List.map hex_of_n (alloc_eps dt e)))
+               (if not (deserializable t) then "na" else if List.for_all (fun x -> List.mem x (blocks_at N0 evs)) (refs e) then "y" else "n")
+               (if skel_same then "y" else "n")
+           | _ -> Printf.printf "%s alloc:%s none\n" cid r)
       | ["tinfo"] ->
         let b x = if x then "1" else "0" in
         Printf.printf "%s tinfo pow2=%s wf=%s wt=%s deser=%s exh=%s unit=%s need=%s cover=%s\n" cid (b (units_pow2 t)) (b (wf t)) (b (wt t v))
@@ -295,6 +360,14 @@ let run ic =
       if line <> "" then
         match String.split_on_char ' ' line with
         | "T" :: tid :: rest -> Hashtbl.replace types tid (ty_of (Sexp.parse (String.concat " " rest)))
+        | "D" :: pid :: rest ->
+          (* derive-time decision: D <pid> <info> <field type> ... *)
+          (match Sexp.parse ("(" ^ String.concat " " rest ^ ")") with
+           | L (i :: tys) ->
+             let o = (match derive_check (info_of i) (List.map ty_of tys) with
+                 | DAccept -> "DAccept" | DPanicNotReprC -> "DPanicNotReprC" | DPanicBoth -> "DPanicBoth" | DBoundError -> "DBoundError") in
+             Printf.printf "%s derive %s\n" pid o
+           | _ -> failwith "D line")
         | "C" :: cid :: tid :: th :: ah :: nm :: rest ->
           let rest = String.concat " " rest in
           (* the value is the first S-expression, the ops follow *)
